@@ -66,9 +66,9 @@ fn lost_update_delete() {
 #[test]
 fn lost_update_from() {
     let (_d, a, b) = setup();
-    exec(&a, "CREATE TABLE s (id INT PRIMARY KEY, v INT)");
+    exec(&a, "CREATE TABLE s (sid INT, sv INT)");
     exec(&a, "INSERT INTO s VALUES (1, 7)");
-    let r = both_commit(&a, &b, &|h| h.execute("UPDATE t SET v = v + 1 WHERE id = 1").is_ok(), &|h| h.execute("UPDATE t SET v = s.v FROM s WHERE t.id = s.id").is_ok());
+    let r = both_commit(&a, &b, &|h| h.execute("UPDATE t SET v = v + 1 WHERE id = 1").is_ok(), &|h| h.execute("UPDATE t SET v = s.sv FROM s WHERE t.id = s.sid").is_ok());
     assert!(!r, "UPDATE and UPDATE FROM of row 1 both committed: {:?}", rows(&a, "SELECT id, v FROM t"));
 }
 #[test]
